@@ -163,7 +163,8 @@ template <class RandomAccessIterator, class Callback> struct distance_impl<Kerne
     inline ScalarType operator()(Callback& cb, const CoverTreePoint<RandomAccessIterator>& l,
                                  const CoverTreePoint<RandomAccessIterator>& r, ScalarType /*upper_bound*/)
     {
-        return std::sqrt(l.norm_ + r.norm_ - 2 * cb(r.iter_, l.iter_));
+        // rounding can make the squared distance of two close points slightly negative
+        return std::sqrt(std::max<ScalarType>(0, l.norm_ + r.norm_ - 2 * cb(r.iter_, l.iter_)));
     }
 };
 
